@@ -3,6 +3,7 @@ the occurrence matcher, the ranges it yields, the filters in front of a hit."""
 from __future__ import annotations
 
 import ast
+import copy
 
 from sa import rex
 from sa.model import AnalysisError, unparse
@@ -389,7 +390,27 @@ def r5(ctx, R, g, hs):
         base = {id(s) for s in back({ent})} if ent else set()
         return [s for s in back(argn) if id(s) not in base]
     import re as _re
-    norm = lambda sts: [_re.sub(r"__i\d+", "", ast.dump(s)) for s in sts]
+    class _Canon(ast.NodeTransformer):
+        """one spelling per comparison: constant on the right; for integer-valued left sides
+        (x.count(..), len(..)) `>= k` is `> k-1` and `< k` is `<= k-1`"""
+        FLIP = {ast.Lt: ast.Gt, ast.Gt: ast.Lt, ast.LtE: ast.GtE, ast.GtE: ast.LtE, ast.Eq: ast.Eq, ast.NotEq: ast.NotEq}
+
+        def visit_Compare(self, n):
+            self.generic_visit(n)
+            if len(n.ops) != 1:
+                return n
+            l, op, r = n.left, n.ops[0], n.comparators[0]
+            if isinstance(l, ast.Constant) and not isinstance(r, ast.Constant) and type(op) in self.FLIP:
+                l, r, op = r, l, self.FLIP[type(op)]()
+            integral = isinstance(l, ast.Call) and (isinstance(l.func, ast.Attribute) and l.func.attr == "count" or isinstance(l.func, ast.Name) and l.func.id == "len")
+            if integral and isinstance(r, ast.Constant) and type(r.value) is int:
+                if isinstance(op, ast.GtE):
+                    op, r = ast.Gt(), ast.Constant(value=r.value - 1)
+                elif isinstance(op, ast.Lt):
+                    op, r = ast.LtE(), ast.Constant(value=r.value - 1)
+            return ast.Compare(left=l, ops=[op], comparators=[r])
+
+    norm = lambda sts: [_re.sub(r"__i\d+", "", ast.dump(_Canon().visit(copy.deepcopy(s)))) for s in sts]
     fr, fn_ = restrict_slice(ref, cr), restrict_slice(ren, cn)
     if fr and norm(fr) == norm(fn_):
         R.ok("C06.R5", ren.short, "same scope restriction as references", loc(ren, fn_[0]), f"{len(fn_)} statements identical")
@@ -440,6 +461,67 @@ def r5(ctx, R, g, hs):
                 R.ok("C06.R5", f.short, unparse(c)[:80], loc(f, c))
 
 
+def r6(ctx, R, g, hs):
+    """The one-file restriction is sound only for entities nested inside a program unit
+    (locals of a procedure): anything declared at module level can be referenced from
+    other files (USE, submodules).  Every non-None value handed to the searcher as the
+    file restriction is therefore assigned under the nested-entity test."""
+    from .c09 import depth_idiom
+    R.rule("C06.R6", "the search is restricted to one file only for entities nested inside a program unit (FQSN depth > 2); module-level entities are searched in every file", floor=2, confirmed=2)
+    seen = set()
+    for meth in ("textDocument/references", "textDocument/rename", "textDocument/documentHighlight"):
+        f = ctx.m.funcs[next(iter(hs[meth]))]
+        if f.qual in seen:
+            continue
+        seen.add(f.qual)
+        call = None
+        for c in calls_in(f.node):
+            if g.qual in ctx.r.resolve_call(f, c)[1]:
+                call = c
+        if call is None:
+            continue
+        gp = g.params[1:] if g.cls else g.params
+        restr = None
+        for kw in call.keywords:
+            if kw.arg == "file_obj":
+                restr = kw.value
+        if restr is None and "file_obj" in gp and len(call.args) > gp.index("file_obj"):
+            restr = call.args[gp.index("file_obj")]
+        ent = call.args[0] if call.args else None
+        if restr is None or (isinstance(restr, ast.Constant) and restr.value is None):
+            R.ok("C06.R6", f.short, "no file restriction", loc(f, call), "every file is searched")
+            continue
+        if not (isinstance(restr, ast.Name) and isinstance(ent, ast.Name)):
+            R.undecided("C06.R6", f.short, key(f, ctx.m.enclosing_stmt(call)), loc(f, call), "restriction or entity is not a local variable")
+            continue
+        F = ctx.facts(f, interproc=False)
+        n = 0
+        for st in ctx.m.walk_own(f.node):
+            if not (isinstance(st, ast.Assign) and any(isinstance(t, ast.Name) and t.id == restr.id for t in st.targets)):
+                continue
+            if isinstance(st.value, ast.Constant) and st.value.value is None:
+                continue
+            n += 1
+            facts = F.at(st)
+            if facts is None:
+                continue
+            facts = set(facts)
+            v = st.value
+            if isinstance(v, ast.IfExp):
+                none = lambda e: isinstance(e, ast.Constant) and e.value is None
+                if none(v.orelse) and not none(v.body):
+                    facts.add(("cond", unparse(v.test), True))
+                elif none(v.body) and not none(v.orelse):
+                    facts.add(("cond", unparse(v.test), False))
+            if any(depth_idiom(fa, ent.id) for fa in facts):
+                R.ok("C06.R6", f.short, key(f, st), loc(f, st), "restriction chosen under the nested-entity test")
+            else:
+                conds = sorted(fa[1] if fa[2] else f"not ({fa[1]})" for fa in facts if fa[0] == "cond" and ent.id in fa[1])
+                R.violation("C06.R6", f.short, key(f, st), loc(f, st), f"the search is restricted to one file for an entity that need not be nested inside a program unit (conditions here: {'; '.join(conds)[:200] or 'none'}): occurrences in other files (USE association, submodules of the module) are neither listed nor renamed")
+        if n == 0:
+            R.undecided("C06.R6", f.short, key(f, ctx.m.enclosing_stmt(call)), loc(f, call), f"no assignment to `{restr.id}` found")
+
+
 def run(ctx, R):
     g, hs = searcher(ctx)
     call, rx, loop = matcher(ctx, g)
@@ -450,3 +532,4 @@ def run(ctx, R):
     lv = r3(ctx, R, g, rx, loop, k)
     r4(ctx, R, g, call, loop, lv)
     r5(ctx, R, g, hs)
+    r6(ctx, R, g, hs)
